@@ -579,6 +579,8 @@ func (w *encWorld) runIn(ip *Interp, layout *types.Named, ev evSpec) ([]byte, *I
 	})
 	e := ip.zeroOf(w.eventT).(*StructV)
 	es := w.eventT.Underlying().(*types.Struct)
+	var spare []*SliceV
+	guardCase := w.guardCase()
 	mkFields := func(fss []fieldSpec) (AV, error) {
 		var out []AV
 		for i, fs := range fss {
@@ -603,7 +605,20 @@ func (w *encWorld) runIn(ip *Interp, layout *types.Named, ev evSpec) ([]byte, *I
 		if len(out) == 0 {
 			return NilV{}, nil
 		}
-		return ip.mkSlice(out), nil
+		// the caller's slice has spare capacity (a request-scoped slice shared by many events): three cells beyond its
+		// length hold values of the caller, which formatting an event must leave alone
+		n := len(out)
+		for k := 0; k < 3; k++ {
+			sf, err := w.mkField(ip, fieldSpec{key: "caller-owned", kind: "any", cs: guardCase, w: guardCase.w})
+			if err != nil {
+				return nil, err
+			}
+			out = append(out, sf)
+		}
+		sl := ip.mkSlice(out)
+		sl.Hi = n
+		spare = append(spare, sl)
+		return sl, nil
 	}
 	for i := 0; i < es.NumFields(); i++ {
 		var err error
@@ -638,6 +653,13 @@ func (w *encWorld) runIn(ip *Interp, layout *types.Named, ev evSpec) ([]byte, *I
 	res, err := ip.Run(m, []AV{lp, &Ptr{O: ip.newObj(e)}}, nil)
 	if err != nil {
 		return nil, ip, err
+	}
+	for _, sl := range spare {
+		for k := sl.Hi; k < sl.Cap; k++ {
+			if fv, ok := sl.B.cells[k].V.(*StructV); !ok || !strings.Contains(avString(fv), "caller-owned") {
+				return nil, ip, fmt.Errorf("formatting the event overwrites element %d of a field slice of length %d it was given (spare capacity of the caller's slice, shared with the caller's other events)", k, sl.Hi)
+			}
+		}
 	}
 	return avBytes(res), ip, nil
 }
@@ -1447,4 +1469,9 @@ func (c *Ctx) checkEscaperSemantics(r *Report, ro *Roles, rule string, thorough 
 	}
 	ok = all && len(ro.Encoders) >= 2
 	return ok
+}
+
+// guardCase: the value of the caller-owned elements beyond the length of a field slice handed to a layout.
+func (w *encWorld) guardCase() *encCase {
+	return &encCase{name: "guard", mk: func(ip *Interp) AV { return anyOf(basicT(types.String), kStr("guard")) }, w: want{kind: "string", s: "guard"}}
 }
